@@ -59,6 +59,7 @@ struct EvRec {                    // what a handler saw for one event
     Msg msg;                      // matched model message (PS)
     bool is_ps = false;
     int prio = PRIO_NORM;
+    long expect_key_check(int kind, long ki) const;
 };
 
 struct Payload {
@@ -70,6 +71,7 @@ struct Payload {
 
 struct FdSrc { int idx; int fd; bool autoclose, dup, oneshot; long token; };
 struct TmrSrc { int idx; bool oneshot; int prio; long token; };
+struct LiveSrc { int kind; long key; long token; bool oneshot; int prio; bool fired = false; };
 
 struct Inst {
     int id = 0;                   // index in the executor's instance table
@@ -101,6 +103,8 @@ struct Inst {
     std::map<int, FdSrc> fds;     // keyed by descriptor index
     std::map<int, TmrSrc> tmrs;   // keyed by period index
     std::set<std::pair<int, long>> other_srcs; // (kind, key index) for the registry profile
+    std::set<long> retired_tokens; // user data of sources deregistered while the module kept running: their already accumulated events may still arrive
+    std::map<std::pair<int, long>, LiveSrc> live_srcs; // signal / path / pid / task / threshold sources backed by real kernel objects
     // token bucket
     long tb_rate = 0, tb_burst = 0; bool tb_on = false; long tb_refused = 0; double tb_last_call_at = 0, tb_running_since = 0; int tb_dispatches_since_call = 0;
     std::vector<std::pair<double, double>> tb_calls; // (t_before, t_after) of accepted consuming calls since configuration
